@@ -284,7 +284,7 @@ func (vn *Net) Inject(n *Node, recv *VLink, data []byte) Result {
 // HandleFrame runs the switch and (for escalated frames) router handlers.
 func (vn *Net) HandleFrame(n *Node, f frame.Frame) Result {
 	var res Result
-	err := n.Sw.VerifHandleFrame(f)
+	err := watched(n.Name+" switch", func() error { return n.Sw.VerifHandleFrame(f) })
 	if err != nil {
 		if errors.Is(err, mgr.ErrWorkerPanic) {
 			res.Panicked = true
@@ -294,6 +294,22 @@ func (vn *Net) HandleFrame(n *Node, f frame.Frame) Result {
 	}
 	res.merge(vn.DrainRouter(n))
 	return res
+}
+
+// StallTimeout is how long one frame may keep a worker busy before the worker
+// counts as stalled (handlers do no I/O in this rig; they return in microseconds).
+var StallTimeout = 20 * time.Second
+
+// watched runs one handler call and fails the case if it does not return.
+func watched(who string, fn func() error) error {
+	done := make(chan error, 1)
+	go func() { done <- fn() }()
+	select {
+	case err := <-done:
+		return err
+	case <-time.After(StallTimeout):
+		panic(core.CodeFault{Msg: fmt.Sprintf("the %s worker did not return from handling a frame within %s: the worker is stalled", who, StallTimeout)})
+	}
 }
 
 func (r *Result) merge(o Result) {
@@ -309,7 +325,7 @@ func (vn *Net) DrainRouter(n *Node) Result {
 		select {
 		case f := <-n.RouterIn:
 			res.Escalated++
-			err := n.Rtr.VerifHandleFrame(f)
+			err := watched(n.Name+" router", func() error { return n.Rtr.VerifHandleFrame(f) })
 			if err != nil {
 				if errors.Is(err, mgr.ErrWorkerPanic) {
 					res.Panicked = true
@@ -385,7 +401,7 @@ func (vn *Net) InjectSwitch(n *Node, recv *VLink, data []byte) (escalated []fram
 	if recv != nil {
 		f.SetRecvLink(recv)
 	}
-	err = n.Sw.VerifHandleFrame(f)
+	err = watched(n.Name+" switch", func() error { return n.Sw.VerifHandleFrame(f) })
 	if err != nil && errors.Is(err, mgr.ErrWorkerPanic) {
 		vn.Panics = append(vn.Panics, fmt.Sprintf("%s switch: %v", n.Name, err))
 	}
